@@ -175,6 +175,8 @@ def law_view(c):
 def judge(cases, use_model, positions=True):
     """-> list of (oracle, component, ctx, detail) problems"""
     probs = []
+    if any(c.status == "ABORTED" for c in cases):
+        return []
     for c in cases:
         if c.status != "OK":
             probs.append(("run", c.status.lower(), c.ctx, c.actual[:300]))
@@ -216,12 +218,30 @@ def judge(cases, use_model, positions=True):
     return probs
 
 
-def run_cases(all_cases, chunk=4000):
-    """fills .status/.actual of every Case via one vjanet batch (this process, 1 job)"""
-    items = [jdn(c.text) for c in all_cases]
-    res = run_batch("fast", DRIVER, items, chunk=chunk, jobs=1, timeout=3)
-    for c, (st, text) in zip(all_cases, res):
-        c.status, c.actual = st, text
+ABORT_LIMIT = 6
+_ABORT = multiprocessing.get_context("fork").Value("i", 0)
+
+
+def run_cases(all_cases, chunk=600, count_bad=True):
+    """fills .status/.actual of every Case, chunk by chunk in this process.  Programs that do not
+    terminate or kill the interpreter are expensive (a time-out per program): once ABORT_LIMIT of them
+    have been seen (by all workers together) the remaining cases are marked ABORTED and not run; the
+    time-outs seen so far are reported as violations and the run stops with a recorded cap."""
+    for lo in range(0, len(all_cases), chunk):
+        sub = all_cases[lo:lo + chunk]
+        if count_bad and _ABORT.value >= ABORT_LIMIT:
+            for c in all_cases[lo:]:
+                c.status, c.actual = "ABORTED", ""
+            return
+        res = run_batch("fast", DRIVER, [jdn(c.text) for c in sub], chunk=chunk, jobs=1, timeout=3)
+        bad = 0
+        for c, (st, text) in zip(sub, res):
+            c.status, c.actual = st, text
+            if st in ("TIMEOUT", "CRASH"):
+                bad += 1
+        if bad and count_bad:
+            with _ABORT.get_lock():
+                _ABORT.value += bad
 
 
 # --------------------------------------------------------------------------
@@ -248,12 +268,18 @@ def work(task):
         farskip += len(ctxs) - len(cases)
         built.append((lo + idx, E, cases))
     flat = [c for _, _, cs in built for c in cs]
-    run_cases(flat, chunk=1 if F.keep_far == "keys-odd-args" else 4000)
+    if F.keep_far == "keys-odd-args":
+        run_cases(flat, chunk=1, count_bad=False)
+    else:
+        run_cases(flat)
     res = dict(exprs=len(built), skipped=skipped, programs=len(flat), failing=[], outcomes=set(),
                steps=sum(c.steps for c in flat), errors=0, farskip=farskip)
     for idx, E, cases in built:
         if os.environ.get("C02_DUMP"):
             sys.stderr.write("DUMP %s\t%s\t%s\n" % (fam, model.rtext(E), cases[0].actual))
+        if any(c.status == "ABORTED" for c in cases):
+            res["aborted"] = res.get("aborted", 0) + 1
+            continue
         probs = judge(cases, F.use_model)
         h = hashlib.blake2b(cases[0].actual.encode("utf-8", "surrogateescape"), digest_size=8).digest()
         res["outcomes"].add(h)
@@ -419,11 +445,13 @@ def main():
         per = max(4, min(6000 // nctx, -(-n // (4 * NPROC))))
         tasks = [(lo, min(n, lo + per)) for lo in range(0, n, per)]
         failing = []
+        aborted = 0
         stats = dict(exprs=0, skipped=0, programs=0, steps=0, errors=0, farskip=0)
         outcomes = set()
         pool = ctxm.Pool(min(NPROC, len(tasks)))
         try:
             for r in pool.imap_unordered(work, tasks):
+                aborted += r.get("aborted", 0)
                 for k in stats:
                     stats[k] += r[k]
                 outcomes |= r["outcomes"]
@@ -472,13 +500,18 @@ def main():
                  excluded_by_model=stats["skipped"], cases_not_run_known_hazard=stats["farskip"],
                  raising=stats["errors"], failing=len(failing), wall_s=round(dt, 1),
                  **dict(("sig:" + k, v) for k, v in nsig.items()))
-        chk.part(fam, bound_completed=F.describe(lv))
-        done_bound[fam] = lv
+        if not aborted:
+            chk.part(fam, bound_completed=F.describe(lv))
+            done_bound[fam] = lv
         chk.sample(dict(family=fam, level=str(lv), first=model.rtext(exprs[0]), middle=model.rtext(exprs[n // 2]),
                         last=model.rtext(exprs[-1])), limit=200)
         sys.stderr.write("[%s %s] %d expr x %d ctx = %d programs, %d outcomes, %d raising, %d excluded, %d hazard-skipped, %d failing %s (%.1fs)\n" % (
             fam, F.describe(lv), stats["exprs"], nctx, stats["programs"], len(outcomes), stats["errors"], stats["skipped"],
             stats["farskip"], len(failing), nsig, dt))
+        if _ABORT.value >= ABORT_LIMIT:
+            chk.cap("stopped in %s (%s): %d programs did not terminate or killed the interpreter; %d expressions of this "
+                    "step and all later steps not run" % (fam, F.describe(lv), _ABORT.value, aborted))
+            break
         if stats["exprs"] >= 8 and len(outcomes) < 2:
             raise HarnessError("family %s level %s is vacuous: %d distinct outcomes" % (fam, lv, len(outcomes)))
     # keep only three samples per family in the evidence (first level, a middle one, the last)
